@@ -126,7 +126,7 @@ pub fn scenarios(property: &str, tier: Tier) -> Vec<Scenario> {
 			name: "c17-stall-rotation-bg",
 			property: "C17",
 			bounds: (1, 2),
-			committers: vec![vec!["a0", "b0"], vec!["a1", "b1"], vec!["a2"]],
+			committers: if tier == Tier::Quick { vec![vec!["a0", "b0"], vec!["a1", "b1"]] } else { vec![vec!["a0", "b0"], vec!["a1", "b1"], vec!["a2"]] },
 			bg: true,
 			near_full: true,
 			stall_low: true,
@@ -146,6 +146,7 @@ pub fn scenarios(property: &str, tier: Tier) -> Vec<Scenario> {
 		Scenario {
 			name: "c17-wal-failure",
 			property: "C17",
+			bounds: (2, 3),
 			committers: vec![vec!["a0", "b0"], vec!["a1"], vec!["a2"]],
 			fail: Some(("commit.wal", 1)),
 			..base.clone()
@@ -153,6 +154,7 @@ pub fn scenarios(property: &str, tier: Tier) -> Vec<Scenario> {
 		Scenario {
 			name: "c17-apply-failure",
 			property: "C17",
+			bounds: (2, 3),
 			committers: vec![vec!["a0", "b0"], vec!["a1"], vec!["a2"]],
 			fail: Some(("commit.apply", 0)),
 			..base.clone()
